@@ -420,6 +420,40 @@ def end_to_end(s):
                     break
         if fails:
             break
+    # the phonon part does not depend on the tabulated static values; the static part does not depend on temperature
+    if not fails:
+        ex = "akimotoite"
+        src = open(calc_env.example_dir(ex) + "/input02").read().split("\n")
+        n = int(src[1].split()[1])
+        scaled = []
+        for i, line in enumerate(src):
+            if 3 <= i < 3 + n:
+                f = line.split()
+                scaled.append(" ".join([f[0]] + ["%.10f" % (1.5 * float(x)) for x in f[1:]]))
+            else:
+                scaled.append(line)
+        st = {"qha": {"settings": {"NT": 6, "DT": 300, "DT_SAMPLE": 300, "NTV": 21, "DELTA_P": 2.0, "DELTA_P_SAMPLE": 2.0}}}
+        with calc_env.Case(ex, st) as c1, calc_env.Case(ex, st, elast_text="\n".join(scaled)) as c2:
+            a1, a2 = c1.build(), c2.build()
+            evals += 1
+            distinct += 1
+            for key in a1.modulus_keys:
+                p1 = numpy.asarray(a1._full_modulus._isothermal_phonon_contribution[key])
+                p2 = numpy.asarray(a2._full_modulus._isothermal_phonon_contribution[key])
+                s1 = numpy.asarray(a1.modulus_isothermal[key]) - p1
+                s2 = numpy.asarray(a2.modulus_isothermal[key]) - p2
+                ok = numpy.isfinite(p1)
+                scale = float(numpy.abs(s1[numpy.isfinite(s1)]).max())
+                if not numpy.array_equal(p1[ok], p2[ok]):
+                    fails.append({"witness_id": "phonon-depends-on-static:%r" % (key,), "input": {"example": ex, "static table": "scaled by 1.5"},
+                                  "observed": "phonon part of %r changes by up to %.3g when the static table is scaled" % (key, float(numpy.abs(p1[ok] - p2[ok]).max())),
+                                  "expected": "phonon part independent of the tabulated static values"})
+                    break
+                if not numpy.allclose(s2[ok], 1.5 * s1[ok], rtol=1e-7, atol=1e-9 * scale) or not numpy.allclose(s1[ok], numpy.broadcast_to(s1[-1], s1.shape)[ok], rtol=0, atol=1e-9 * scale):
+                    fails.append({"witness_id": "static-part:%r" % (key,), "input": {"example": ex, "static table": "scaled by 1.5"},
+                                  "observed": "total - phonon of %r is not 1.5 x the unscaled static part / depends on temperature" % (key,),
+                                  "expected": "static part linear in the table and independent of T"})
+                    break
     s.bounded_standin("C05.end_to_end(examples)", "%d data sets (two shipped examples, a copy without lattice block%s), every key, isothermal and adiabatic, relative tolerance 1e-7"
                       % (len(cases), ", other interpolator / grid" if s.tier == "thorough" else ""), evals, distinct, fails,
                       ["calculator.Calculator", FM + "modulus_isothermal", FM + "modulus_adiabatic"])
